@@ -13,6 +13,9 @@ import TdModel.Prim.AES
 import TdModel.Prim.SHA512
 import TdModel.Prim.HMAC
 import TdModel.Prim.PBKDF2
+import TdModel.Prim.MD5
+import TdModel.Prim.CRC32
+import TdModel.Prim.Num
 
 namespace TdModel
 
